@@ -557,7 +557,10 @@ func refStrip(s string) (out string, pads []string) {
 				ok = m > k+1
 				k = m
 			}
-			for ok && k < len(s) && (s[k] == '*' || s[k] == '/') {
+			if ok && k < len(s) && s[k] == '*' { // [*][/]: at most one of each, in this order (the property's grammar)
+				k++
+			}
+			if ok && k < len(s) && s[k] == '/' {
 				k++
 			}
 			if ok && k < len(s) && s[k] == '>' {
@@ -869,7 +872,10 @@ func verifRefStrip(s string) string {
 				ok = m > k+1
 				k = m
 			}
-			for ok && k < len(s) && (s[k] == '*' || s[k] == '/') {
+			if ok && k < len(s) && s[k] == '*' { // [*][/]: at most one of each, in this order (the property's grammar)
+				k++
+			}
+			if ok && k < len(s) && s[k] == '/' {
 				k++
 			}
 			if ok && k < len(s) && s[k] == '>' {
